@@ -135,6 +135,12 @@ def gen_cases(tier):
         cases.append({"d": i, "ctx": "before-table"})
         cases.append({"d": i, "ctx": "after-table"})
         cases.append({"d": i, "ctx": "pair"})
+        # directly after a one-line SET statement (as the last statement, and followed by another one-line declaration)
+        cases.append({"d": i, "ctx": "after-set"})
+        if i % 3 == 0:
+            # the same parser object run in several output modes: the entity of the default-mode run is what a fresh object reports
+            cases.append({"d": i, "ctx": "rerun"})
+        cases.append({"d": i, "ctx": "after-set-run"})
         if d.get("use") and not any(d["use"] == k or d["use"].endswith("." + k) for k in KWNAMES):
             cases.append({"d": i, "ctx": "used"})
     R = reps()
@@ -152,6 +158,7 @@ def gen_cases(tier):
     return cases
 
 
+SETLINE = "SET search_path = public;"
 OTHER = "CREATE TABLE other_t (k int, type int, domain int, schema int);"
 
 
@@ -168,10 +175,14 @@ def build(case):
     if case["ctx"] == "seq":
         return "\n".join(D()[i]["ddl"] for i in case["ds"])
     d = D()[case["d"]]
-    if case["ctx"] == "alone":
+    if case["ctx"] in ("alone", "rerun"):
         return d["ddl"]
     if case["ctx"] == "pair":
         return d["ddl"] + "\n" + D()[partner(case["d"])]["ddl"]
+    if case["ctx"] == "after-set":
+        return SETLINE + "\n" + d["ddl"]
+    if case["ctx"] == "after-set-run":
+        return SETLINE + "\n" + d["ddl"] + "\n" + "CREATE DATABASE zz_db;"
     if case["ctx"] == "before-table":
         return d["ddl"] + "\n" + OTHER
     if case["ctx"] == "after-table":
@@ -203,6 +214,21 @@ def solo_of(i):
 
 
 def evaluate(case):
+    if case["ctx"] == "rerun":
+        from simple_ddl_parser import DDLParser
+        d = D()[case["d"]]
+        fresh = solo_of(case["d"])
+        if fresh[0] != "ok":
+            return {"diffs": [], "skipped": True}
+        try:
+            obj = DDLParser(d["ddl"])
+            obj.run(output_mode="bigquery")
+            obj.run(output_mode="hql", group_by_type=True)
+            again = norm(obj.run())
+        except Exception as e:  # noqa
+            return {"diffs": [diff("run", "raises:" + type(e).__name__, "result", str(e)[:200])], "outcome": "exc"}
+        D_ = [] if again == fresh[1] else [diff("default-mode run after a bigquery and an hql run of the same object", "rerun-differs-from-fresh-object", short(fresh[1], 300), short(again, 300))]
+        return {"diffs": D_, "nontrivial": True, "outcome": d["kind"] + ":rerun"}
     if case["ctx"] == "seq":
         ss = [solo_of(i) for i in case["ds"]]
         if any(x[0] != "ok" or len(x[1]) != 1 for x in ss):
@@ -220,8 +246,8 @@ def evaluate(case):
     if r[0] != "ok":
         return {"diffs": [diff("run", "raises:" + r[1], "result", r[2])], "outcome": "exc"}
     res = r[1]
-    n_exp = 1 if case["ctx"] == "alone" else 2
-    idx = 1 if case["ctx"] == "after-table" else 0
+    n_exp = {"alone": 1, "after-set-run": 3}.get(case["ctx"], 2)
+    idx = 1 if case["ctx"] in ("after-table", "after-set", "after-set-run") else 0
     if case["ctx"] == "pair":
         # judged only when both declarations are fine alone (their own defects are reported by the 'alone' cases)
         d2 = D()[partner(case["d"])]
@@ -254,6 +280,11 @@ def evaluate(case):
         got = [[c.get("name"), c.get("type"), c.get("size")] for c in (e.get("properties") or {}).get("columns", [])]
         if got != d["tcols"]:
             diffs.append(diff("TYPE AS TABLE columns", "entity-differs", d["tcols"], got))
+    if case["ctx"] in ("after-set", "after-set-run"):
+        if res[0] != {"name": "search_path", "value": "public"}:
+            diffs.append(diff("SET statement before the declaration", "neighbour-changed", {"name": "search_path", "value": "public"}, short(res[0], 200)))
+        if case["ctx"] == "after-set-run" and res[2] != {"database_name": "zz_db"}:
+            diffs.append(diff("declaration after the declaration", "neighbour-changed", {"database_name": "zz_db"}, short(res[2], 200)))
     if case["ctx"] in ("before-table", "after-table"):
         t = res[1 - idx]
         ref = run_ddl(OTHER)[1][0]
